@@ -270,6 +270,10 @@ class Body:
         self.span = raw["span"]
         self.arg_count = raw["arg_count"]
         self.fn_name = raw["name"]
+        if not self.fn_name and self.root:
+            # closures / coroutines: name of the function they belong to
+            r = self.root.split("::{closure")[0]
+            self.fn_name = r.rsplit("::", 1)[-1]
         self.locals = raw["locals"]
         self.blocks = raw["blocks"]
         self.n = len(self.blocks)
@@ -954,3 +958,67 @@ class Facts:
 
 def load(path):
     return Facts(path)
+
+
+# ---- additional graph helpers ----------------------------------------------------------------
+
+def _coreach(self, targets, avoid=(), avoid_edges=()):
+    """blocks from which some block of `targets` is reachable (including the targets)"""
+    avoid = set(avoid)
+    avoid_edges = set(avoid_edges)
+    seen = set(t for t in targets if t not in avoid)
+    dq = deque(seen)
+    while dq:
+        x = dq.popleft()
+        for p in self.pred[x]:
+            if p in avoid or (p, x) in avoid_edges or p in seen:
+                continue
+            if p not in self.reachable:
+                continue
+            seen.add(p)
+            dq.append(p)
+    return seen
+
+
+def _between(self, a_blocks, b_blocks, avoid_edges=()):
+    """blocks lying on some path from a block of A to a block of B (paths stop at B)"""
+    fwd = self.reach(a_blocks, avoid=(), avoid_edges=avoid_edges)
+    # forward reachability that does not continue past B
+    stop = set(b_blocks)
+    seen = set()
+    dq = deque()
+    for s in a_blocks:
+        if s not in seen:
+            seen.add(s)
+            dq.append(s)
+    while dq:
+        x = dq.popleft()
+        if x in stop:
+            continue
+        for b, _ in self.succ[x]:
+            if (x, b) in set(avoid_edges) or b in seen:
+                continue
+            seen.add(b)
+            dq.append(b)
+    back = self.coreach(b_blocks)
+    return seen & back
+
+
+def _yield_blocks(self):
+    return set(y[0] for y in self.yields if y[0] in self.reachable)
+
+
+Body.coreach = _coreach
+Body.between = _between
+Body.yield_blocks = _yield_blocks
+
+ELEM = (
+    "core::iter::Iterator::next", "core::iter::IntoIterator::into_iter", "core::slice::<impl [T]>::iter_mut",
+    "core::slice::<impl [T]>::iter", "core::iter::Iterator::find", "core::slice::<impl [T]>::get_mut",
+    "core::slice::<impl [T]>::get", "core::slice::<impl [T]>::first_mut", "core::slice::<impl [T]>::last_mut",
+    "core::ops::Index::index", "core::ops::IndexMut::index_mut", "core::iter::Iterator::rev",
+    "core::iter::Iterator::enumerate", "core::iter::Iterator::skip", "core::iter::Iterator::take",
+    "VecInner::<T, LenT, S>::iter_mut", "VecInner::<T, LenT, S>::iter", "VecInner::<T, LenT, S>::as_mut_slice",
+    "VecInner::<T, LenT, S>::as_slice", "core::iter::Iterator::by_ref", "core::iter::Iterator::filter",
+    "core::iter::Iterator::position",
+)
